@@ -721,4 +721,45 @@ def r8_dispatch_history(a, tier):
     return rep
 
 
-RULES = [r1_child_discovery, r2_traversals, r3_attribute_names, r4_declared_bases, r5_construction, r6_dispatch_namespace, r7_generated_model_classes, r8_dispatch_history]
+def r9_synthesis_registry(a, tier):
+    rep = RuleReport(
+        'C07.R9',
+        'a typed rule gets a class synthesized FOR it: synthesize(name, bases) first asks its registry for `name` and returns what it finds '
+        'when that is a type. Where the registry is the namespace of the synth module itself (vars() / globals(): synthesized classes must '
+        'be attributes of their module to be picklable), every other name bound in that module - imports, helpers, the framework classes - '
+        'answers for a rule typed with that name: the rule is built with that object (no attributes from the AST, no SynthNode behaviour) or '
+        'the parse raises TypeError. The names that collide are reported as ONE finding keyed by their set, so a new import is a new finding',
+        floor=1,
+    )
+    mod = a.p.modules.get('tatsu.objectmodel.synth')
+    syn = a.p.functions.get('tatsu.objectmodel.synth.synthesize')
+    if mod is None or syn is None:
+        raise AnalysisError('C07.R9: tatsu.objectmodel.synth.synthesize not found')
+    reg = [(n, v) for n, v in mod.assigns.items() if 'registry' in n.lower()]
+    if not reg:
+        raise AnalysisError('C07.R9: the registry of synthesized classes was not found in tatsu/objectmodel/synth.py')
+    name, val = reg[0]
+    namespace = isinstance(val, ast.Call) and dotted(val.func) in ('vars', 'globals') and not val.args
+    rep.add({'registry': name, 'is_the_module_namespace': namespace, 'expr': norm(val)})
+    if not namespace:
+        rep.notes.append('the registry is a container of its own: only synthesized classes are found in it')
+        return rep
+    bound = set()
+    for st in mod.tree.body:
+        if isinstance(st, (ast.Import, ast.ImportFrom)):
+            bound |= {(al.asname or al.name).split('.')[0] for al in st.names}
+        elif isinstance(st, (ast.FunctionDef, ast.ClassDef)):
+            bound.add(st.name)
+        elif isinstance(st, (ast.Assign, ast.AnnAssign)):
+            for t in (st.targets if isinstance(st, ast.Assign) else [st.target]):
+                if isinstance(t, ast.Name):
+                    bound.add(t.id)
+    collide = sorted(n for n in bound if n.isidentifier() and not n.startswith('_'))
+    rep.add({'names_that_answer_for_a_rule_type': collide})
+    if collide:
+        rep.fail(syn.qualname, 'registry-collision:' + ','.join(collide), f'the registry of synthesize() is the namespace of tatsu.objectmodel.synth, which also binds {collide}: a rule typed '
+                 f'`::{collide[0]}` (or any of the others) is built with that object instead of a synthesized class, or raises TypeError', syn.loc)
+    return rep
+
+
+RULES = [r1_child_discovery, r2_traversals, r3_attribute_names, r4_declared_bases, r5_construction, r6_dispatch_namespace, r7_generated_model_classes, r8_dispatch_history, r9_synthesis_registry]
